@@ -49,6 +49,7 @@ type Sched struct {
 	// the io.Reader contract ("callers should treat a return of 0 and nil as indicating that nothing
 	// happened"), and never twice in a row
 	IdleEvery int
+	IdleFirst bool // the very first call returns (0, nil): a source that has nothing yet, and says so politely
 }
 
 var Full = Sched{Name: "full"}
@@ -109,7 +110,7 @@ func (s *Source) Read(p []byte) (int, error) {
 	if len(p) == 0 {
 		return 0, nil
 	}
-	if s.S.IdleEvery > 0 && s.NReads%s.S.IdleEvery == 0 {
+	if (s.S.IdleEvery > 0 && s.NReads%s.S.IdleEvery == 0) || (s.S.IdleFirst && s.NReads == 1) {
 		s.ZeroNil++
 		return 0, nil
 	}
@@ -436,14 +437,24 @@ func Run(loader string, src *Source, drain bool, measure bool) (o Obs) {
 		}
 		// the two accessors do not disturb one another: asking for the parsed profile (whether or not
 		// the bytes parse) leaves the raw bytes and their error what they were
+		var parsed interface{}
+		var perr error
+		parsedNil := true
 		func() {
 			defer func() { recover() }()
-			md.ICCProfile()
+			p, e := md.ICCProfile()
+			parsed, perr, parsedNil = p, e, p == nil
 		}()
+		_ = parsed
 		data2, ierr2 := md.ICCProfileData()
 		if (ierr2 == nil) != (ierr == nil) || !bytes.Equal(data2, data) {
 			o.ICC = "mutated-after-later-loads"
 			o.ICCErr = "ICCProfileData() differs after ICCProfile() was called on the same value"
+		}
+		// a damaged embedding is an error through either accessor; no embedding is (nil, nil) through both
+		if (ierr != nil && data == nil && perr == nil) || (ierr == nil && data == nil && !(parsedNil && perr == nil)) {
+			o.ICC = "mutated-after-later-loads"
+			o.ICCErr = fmt.Sprintf("ICCProfile() gives (nil: %v, err: %v) where ICCProfileData() gives (nil, %v)", parsedNil, perr, ierr)
 		}
 		// the bytes handed out are the caller's: writing to them before the stream is read does not
 		// change what the stream replays (the hash and the observation's copy are taken first)
